@@ -17,7 +17,7 @@ def run(tier, seed):
                 ('MC_SatCoreImpl', 'MC_SatCoreImpl_C.cfg', 'MC_SatCoreImpl_A1.cfg', 'implementation-shaped model of sat_core / clause: trail, levels and watch lists after pop / backjump (TrailInv, WatchInv, PropagationComplete, AssignedEntailed)', None)],
         lraimpl=(['LraGen_A.cfg'], ['LraGen_A.cfg', 'LraGen_B.cfg']),
         satimpl=(['SatCoreGen_C.cfg', 'SatCoreGen_B.cfg', 'SatCoreGen_Asim.cfg'], ['SatCoreGen_A1.cfg', 'SatCoreGen_C.cfg', 'SatCoreGen_Asim.cfg']),
-        dlimpl=(False, True, (False, 'DiffLogicGen_idl_chain.cfg'), (True, 'DiffLogicGen_rdl_chain.cfg'), (False, 'DiffLogicGen_idl_undo.cfg'), (True, 'DiffLogicGen_rdl_undo.cfg'), (False, 'DiffLogicGen_idl_sim.cfg'), (True, 'DiffLogicGen_rdl_sim.cfg')),
+        dlimpl=(False, True, (False, 'DiffLogicGen_idl_chain.cfg'), (True, 'DiffLogicGen_rdl_chain.cfg'), (False, 'DiffLogicGen_idl_undo.cfg'), (True, 'DiffLogicGen_rdl_undo.cfg'), (False, 'DiffLogicGen_idl_sim.cfg'), (True, 'DiffLogicGen_rdl_sim.cfg'), (False, 'DiffLogicGen_idl_tie.cfg'), (True, 'DiffLogicGen_rdl_tie.cfg')),
         assumptions=['at most 11 propositional variables and 6 theory atoms per execution',
                      'arithmetic values (as opposed to bounds) are not required to be restored'])
 
